@@ -99,6 +99,27 @@ class Impl:
         return self.call_nn(name, x, args)
 
     def call_nn(self, name, x, args):
+        sg = self.sg
+        pair = lambda a: tuple(common.parse_ints(a))
+        if name in ('relu', 'selu', 'tanh', 'sigmoid'): return getattr(sg, name)(x[0])
+        if name == 'leaky_relu': return sg.leaky_relu(x[0], bitsf(args[0]))
+        if name in ('softmax', 'log_softmax'): return getattr(sg, name)(x[0], int(args[0]))
+        if name in ('mse_loss', 'binary_cross_entropy', 'binary_cross_entropy_with_logits', 'nll_loss', 'cross_entropy'):
+            return getattr(sg, name)(x[0], x[1])
+        if name == 'linear': return sg.linear(x[0], x[1], x[2] if len(x) > 2 else None)
+        if name == 'conv1d': return sg.conv1d(x[0], x[1], x[2] if len(x) > 2 else None, int(args[1]), int(args[2]), int(args[3]))
+        if name == 'conv2d': return sg.conv2d(x[0], x[1], x[2] if len(x) > 2 else None, pair(args[1]), pair(args[2]), pair(args[3]))
+        if name in ('max_pool1d', 'avg_pool1d'): return getattr(sg, name)(x[0], int(args[0]), int(args[1]), int(args[2]), int(args[3]))
+        if name in ('max_pool2d', 'avg_pool2d'): return getattr(sg, name)(x[0], pair(args[0]), pair(args[1]), pair(args[2]), pair(args[3]))
+        if name == 'unfold': return sg.unfold(x[0], pair(args[0]), pair(args[1]), pair(args[2]), pair(args[3]), bitsf(args[4]))
+        if name == 'fold': return sg.fold(x[0], pair(args[0]), pair(args[1]), pair(args[2]), pair(args[3]), pair(args[4]))
+        if name == 'batch_norm':
+            hw, hb, tr = bool(int(args[0])), bool(int(args[1])), bool(int(args[2]))
+            w = x[1] if hw else None
+            b = (x[2] if hw else x[1]) if hb else None
+            rm = None if args[4] == '-' else sg.Tensor(np.array(common.parse_floats(args[4]), dtype=np.float64))
+            rv = None if args[5] == '-' else sg.Tensor(np.array(common.parse_floats(args[5]), dtype=np.float64))
+            return sg.batch_norm(x[0], w, b, rm, rv, tr, 0.1, bitsf(args[3]))
         raise KeyError(name)
 
     @staticmethod
